@@ -41,5 +41,6 @@ def run(rep, tier, seed):
     rep.level = "exploration"
     rep.assume("A1", "A4", "A6", "A7", "A8")
     D.run_contracts(rep, "C10", D.COVER + D.TQ, tier, with_lemmas=True, also=('C05',))
+    D.run_static(rep, "C10", ("purity",))      # every per-call contract presupposes that results are functions of the arguments
     t3(rep, tier, seed)
     D.link_falsifier(rep)
